@@ -13,7 +13,7 @@ CONFIG = {
                    "starts at import exactly as in production; requests.get is a simulated server (immediate / delayed / "
                    "late / never answering; newer, equal, older, pre-release, dev, 'v'-prefixed, garbage, null or missing "
                    "tag; JSON list/string/number; non-JSON body; HTTP 403/404/500; connection, timeout and SSL errors; a "
-                   "non-requests exception; optionally a different behaviour for every further request of the process). A seeded scheduler decides the interleaving at Thread.start, requests.get "
+                   "non-requests exception; response bodies that arrive later than the headers or never complete; optionally a different behaviour for every further request of the process). A seeded scheduler decides the interleaving at Thread.start, requests.get "
                    "entry/exit, join, thread exit, every file-system effect of the command and every source line of "
                    "ascmhl/cli/*.py; join(timeout) blocks in virtual time. A twin run of the same command without the "
                    "updater on an identical world gives the reference exit code, stdout and duration."),
@@ -41,6 +41,11 @@ LAT = [0, 1_000, 200_000, 990_000, 999_999, 1_000_001, 1_010_000, 5_000_000, Non
 
 def gen_net(rng):
     net = gen_net1(rng)
+    if net["kind"] != "exc" and rng.random() < 0.2:
+        # status line and headers arrive after latency_us, the body trickles in later (or never completes)
+        net["body_latency_us"] = rng.choice([1_000, 500_000, 999_000, 1_500_000, 4_000_000, None])
+        if rng.random() < 0.6:
+            net["latency_us"] = rng.choice([0, 1_000, 200_000])
     if rng.random() < 0.3:
         # a different behaviour for every further request of the same process (retries, redirects followed by hand ...)
         net["then"] = [gen_net1(rng) for _ in range(rng.randint(1, 2))]
@@ -179,6 +184,9 @@ def execute(sc, ctx):
     v = r.value
     net = sc["net"]
     lat = net.get("latency_us")
+    if "body_latency_us" in net and net["kind"] != "exc":
+        lat = None if (lat is None or net["body_latency_us"] is None) else lat + net["body_latency_us"]
+        ctx.fault("slow_response_body")
     lat_class = "never" if lat is None else "before-timeout" if lat < 1_000_000 else "after-timeout"
     switches = sum(1 for a, b in zip(v["schedule"], v["schedule"][1:]) if a[1] != b[1])
     sched_hash = core.h64(tuple(map(tuple, v["schedule"])))
